@@ -391,6 +391,8 @@ func (p *prog) setOps() {
 	}
 	p.out(fmt.Sprintf("[%s | %s, %s & %s, %s - %s, %s ^ %s, %s.issubset(%s), %s == %s]", a, b, a, b, a, b, a, b, a, b, a, b))
 	p.out(fmt.Sprintf("sorted(%s)", a))
+	// subset / superset tests that are true by construction, on tables with overflow buckets
+	p.out(fmt.Sprintf("[set(%[3]s[:len(%[3]s) // 2]) <= set(%[3]s), %[1]s <= (%[1]s | %[2]s), (%[1]s & %[2]s).issubset(%[1]s), (%[1]s | %[2]s) >= %[2]s, set(%[3]s).issuperset(%[2]s), (%[1]s - %[2]s) < (%[1]s | set([\"one-more-element-for-strictness\"])), set(%[3]s) > set(%[3]s[1:])]", a, b, kv))
 	p.out(fmt.Sprintf("{k: i for i, k in enumerate(%s)}", b))
 	p.add("print(\"%%s %%r\" %% (%s, %s), str(%s), len(%s))", a, b, a, b)
 	if p.chance(0.3) {
